@@ -11,7 +11,8 @@ EXPLANATION = (
     "every reader's virtual_position() delegates to Block::virtual_position, Block.pos / Reader.position / Data.pos / "
     "Data.len have exactly the confirmed writers and the block position is set from the running compressed position; "
     "(R4) the direct-read fast path is guarded by buf.len() >= BGZF_MAX_ISIZE (paired-guard constant); (R5) the writer's "
-    "virtual position is (position, staging_buf.len()).")
+    "virtual position is (position, staging_buf.len())."
+    " R5 also decides that every frame the writer emits advances `position` by that frame's size: after each call that writes a frame (write_frame, or a helper of the same return type whose result derives from it) every success path adds a value derived from that call to the position field.")
 ASSUMPTIONS = ["the inner Seek::seek positions the source at the requested compressed offset",
                "crossbeam/rayon deliver blocks in ticket order (C03)"]
 NOT_DECIDED = ["equality with a flat-array reference model over arbitrary read/seek histories",
@@ -208,6 +209,41 @@ def run(ctx):
             ctx.ok("C02.R5", fw.key, "VirtualPosition::try_from((position, staging_buf.len()))", fw.loc())
         else:
             ctx.violation("C02.R5", "C02.R5/writer-vpos/" + fw.key, "writer virtual_position is no longer built from (position, staging_buf.len())", fw.loc())
+
+    # every frame the writer emits advances `position` by that frame's size: a frame written without the advance makes every
+    # later tell() point into the middle of a frame or at an earlier block
+    is_wf = R.mk_pred(r"writer::frame::write_frame$")
+    wfs = [g for k, g in fb.fns.items() if is_wf(k)]
+    wf_ret = wfs[0].locals[0] if wfs else None
+    fam = sorted(k for k in fb.fns if k.startswith(("noodles_bgzf::io::writer::Writer::<W>::", "<noodles_bgzf::io::writer::Writer<W> as ")))
+    nsites = 0
+    for key in fam:
+        f = fb.fns[key]
+        if f.is_closure:
+            continue
+
+        def emits_frame(c):
+            k = c.get("f") or ""
+            if is_wf(k):
+                return True
+            g = fb.fns.get(k)
+            # a helper that writes a frame and hands its size back: same return type as write_frame (functions that account
+            # for the frame themselves return io::Result<()>, and their error value also "derives" from write_frame)
+            return g is not None and wf_ret is not None and g.locals[0] == wf_ret and R.returns_from_call(fb, g, is_wf)
+
+        sites = [(b, c) for b, c in f.calls() if emits_frame(c)]
+        if not sites:
+            continue
+        nsites += len(sites)
+        ctx.saw_fn(f)
+
+        def advances(fn, st):
+            return (st[0] == "=" and st[2][0] == "bin" and st[2][1].startswith("Add")
+                    and any(n == "position" for n, _o in C.place_fields(C.op_place(st[2][2]) or [0, []]))
+                    and R.derives_from_call_deep(fb, fn, st[2][3], is_wf))
+        R.must_pass(ctx, "C02.R5", key, None, "a written frame advances position by its size", fn=f,
+                    start_after=emits_frame, stmt_pred=advances)
+    ctx.floor("C02.R5", "frame-emitting call sites in the BGZF writer", nsites, 1)
 
 
 def _mentions_field(st, name):
